@@ -7,6 +7,8 @@ import Klev.Proofs.ScanProofs
 import Klev.Proofs.StatOK
 import Klev.Proofs.MemIdxInv
 import Klev.Proofs.RecoverCheck
+import Klev.Proofs.Witness
+import Klev.Proofs.WitnessBytes
 namespace Klev.C13
 
 /-- The layout constants of the current source (regenerated on every run, evaluated by the
@@ -150,6 +152,59 @@ theorem logSize_is_file_length (v : Ver) (ms : List Msg) :
   Klev.render_length_logSize v ms
 
 end Klev.C13
+
+/-! ### Non-vacuity
+
+Byte level: the messages `Witness.wMs` and `Witness.wM` (`Klev/Proofs/WitnessBytes.lean`). Record
+level: the witness log `Witness.wL` (four segments, seven live messages, `Inv` and `MemIdx`
+obtained from the reachability theorems; `Klev/Proofs/Witness.lean`), the same files with all
+index files removed, and the same files opened read-only (`Witness.wRO`). -/
+section NonVacuity
+open Klev Klev.Witness
+
+example := Klev.C13.dec_enc .v2 [7, 7] [5] wM wM_enc
+example := Klev.C13.dec_enc .v1 (render .v1 wMs) [] wM wM_enc
+example := Klev.C13.back_to_back .v2 wMs wMs_enc
+example := Klev.C13.back_to_back .v1 wMs wMs_enc
+example := Klev.C13.item_round_trip ⟨true, true⟩ ⟨4, 122, 30, 12638150916671911033⟩
+  (by decide) (by decide) (by decide) (by decide) (fun _ => by decide)
+example := Klev.C13.item_round_trip ⟨false, true⟩ ⟨4, 122, -30, 12638150916671911033⟩
+  (by decide) (by decide) (by decide) (by decide) (fun h => nomatch h)
+
+-- a segment of `wL` with its index file, and one whose index file was removed while closed
+example := Klev.C13.segStat_spec wL.opts (wL.segs[1]'(by decide)) (wL_inv.idx _ (List.getElem_mem _))
+  (wL_memIdx _ (List.getElem_mem _))
+example := Klev.C13.segStat_spec oo.opts ((stepOp wL (.reopen [0, 2, 5, 8] none false oo)).segs[1]'(by decide))
+  ((Klev.step_inv_abs wL wL_inv (.reopen [0, 2, 5, 8] none false oo)).1.idx _ (List.getElem_mem _))
+  (Klev.step_memIdx wL (Klev.segs_ne_nil_of_inv wL wL_inv) wL_memIdx (.reopen [0, 2, 5, 8] none false oo) _
+    (List.getElem_mem _))
+example := Klev.C13.stat_spec wL wL_inv wL_memIdx
+example := Klev.C13.stat_spec wRO wRO_inv wRO_memIdx
+example := Klev.C13.stat_ok wL wL_inv wL_memIdx
+example := Klev.C13.memIdx_head wL wL_inv wL_rw
+example : MemIdx l0 := Klev.C13.open_memIdx [] oo l0 open_l0 (Or.inr rfl)
+example : MemIdx wRO := Klev.C13.open_memIdx wL.disk ooRO wRO open_wRO (Or.inl (by decide))
+example := Klev.C13.step_memIdx wL (Klev.segs_ne_nil_of_inv wL wL_inv) wL_memIdx (.delete [5, 6])
+example : MemIdx wL := Klev.C13.run_memIdx l0 l0_inv (Klev.open_memIdx [] oo l0 open_l0 (Or.inr rfl)) ops
+example := Klev.C13.run_memIdx wL wL_inv wL_memIdx [.reopen [0, 2, 5, 8] none false oo, .get 4, .gc]
+example := Klev.C13.reach_memIdx oo rfl ops
+example := Klev.C13.stat_spec_reachable oo rfl ops
+example := Klev.C13.stat_ok_reachable oo rfl ops
+
+-- evaluated: 4 segments, 7 messages; 553 bytes = log files 84 + 83 + 84 + 46, index files
+-- (8 + 2·32)·3 + (8 + 32); the same after all index files were removed (Stat rebuilds them), and
+-- through the read-only handle
+example : (wL.stat).2 = .ok ⟨4, 7, 553⟩ ∧
+    ((stepOp wL (.reopen [0, 2, 5, 8] none false oo)).stat).2 = .ok ⟨4, 7, 553⟩ ∧
+    (wRO.stat).2 = .ok ⟨4, 7, 553⟩ := by decide
+example : (wL.segs.map (fun s => (logSize s.ver s.recs, s.idxf.map (idxSize wL.opts.params)))) =
+    [(84, some 72), (83, some 72), (84, some 72), (46, some 40)] := by decide
+example : (segStat wL.opts (wL.segs[1]'(by decide))).2 = some ⟨1, 2, 155⟩ := by decide
+example : dec .v2 ([7, 7] ++ enc .v2 wM ++ [5]) 2 = .ok wM 41 := by decide +kernel
+example : decItem ⟨true, true⟩ (encItem ⟨true, true⟩ ⟨4, 122, 30, 12638150916671911033⟩) =
+    ⟨4, 122, 30, 12638150916671911033⟩ := by decide +kernel
+
+end NonVacuity
 
 #print axioms Klev.C13.consts_documented
 #print axioms Klev.C13.dec_enc
